@@ -19,7 +19,7 @@ ASSUMPTIONS = [
     "MDAM and PointerNetwork do not go through DecodingStrategy.step per decoder call in a way the tap can align; MDAM's normalisation is covered via C14 (fixed defect), PointerNetwork via the round trip only when the tap aligns",
     "beam search is C13's subject",
 ]
-REQUIRED_COUNTERS = ["c11_forwards", "c11_step_rows", "c11_forced_steps", "c11_padding_step_rows", "c11_entropy_checked", "c11_sum_checked", "c11_roundtrips", "c11_roundtrips_replicated", "c11_stepwise_rows", "c11_flagged_function_calls", "c11_flagged_policy_rows"]
+REQUIRED_COUNTERS = ["c11_minibatch_roundtrips", "c11_forwards", "c11_step_rows", "c11_forced_steps", "c11_padding_step_rows", "c11_entropy_checked", "c11_sum_checked", "c11_roundtrips", "c11_roundtrips_replicated", "c11_stepwise_rows", "c11_flagged_function_calls", "c11_flagged_policy_rows"]
 MIN_NONTRIVIAL = {"quick": 900, "thorough": 8000}
 WORKERS = {"quick": 14, "thorough": 16}
 BUDGET_S = {"quick": 500, "thorough": 3000}
@@ -27,7 +27,7 @@ THOROUGH_ROUNDS = 3
 
 COMBOS = (
     [("am", e, {}) for e in ("tsp", "cvrp", "cvrptw", "sdvrp", "svrp", "op", "pctsp", "spctsp", "pdp", "mtsp", "mtvrp", "mdcpdp", "smtwtp")]
-    + [("am_instnorm", "tsp", {}), ("am_layernorm", "cvrp", {}), ("ham", "pdp", {}), ("symnco", "tsp", {}), ("symnco", "cvrp", {}),
+    + [("am_instnorm", "tsp", {}), ("am_layernorm", "cvrp", {}), ("am_layernorm", "tsp", {}), ("am_instnorm", "cvrp", {}), ("am_moe", "cvrp", {}), ("am_moe", "mtvrp", {}), ("ham", "pdp", {}), ("symnco", "tsp", {}), ("symnco", "cvrp", {}),
        ("matnet", "atsp", {}), ("polynet", "tsp", {}), ("polynet", "cvrp", {}),
        ("l2d", "fjsp", dict(jobs=3, mas=2, min_ops=1, max_ops=3, mask_no_ops=True)), ("l2d", "jssp", dict(jobs=3, mas=3, one2one=True, mask_no_ops=True))]
 )
@@ -59,7 +59,9 @@ def cases(tier, seed):
                     continue
                 for B in ((1, 4) if q else (1, 2, 5, 8)):
                     for r in range(2 if q else 4):
-                        out.append(dict(policy=kind, env=env, n=n, B=B, s=rnd.randrange(10**6), wseed=r, extra=extra, decode=dk, train_mode=False))
+                        # train mode (what REINFORCE / PPO rollouts run in) for the attention models: every second case
+                        tm = bool(r % 2) and kind in ("am", "am_instnorm", "am_layernorm")
+                        out.append(dict(policy=kind, env=env, n=n, B=B, s=rnd.randrange(10**6), wseed=r, extra=extra, decode=dk, train_mode=tm))
     for env, extra in (("fjsp", dict(jobs=3, mas=2, min_ops=1, max_ops=3, mask_no_ops=True)), ("jssp", dict(jobs=3, mas=3, one2one=True, mask_no_ops=True))):
         for B in ((1, 4) if q else (1, 2, 4, 8)):
             for clip in (10, 0, 3):
